@@ -140,9 +140,15 @@ def gen_chart_data(r: random.Random, kind: str, max_series=6, max_points=8, min_
             cats = [r.choice([r.randint(-50, 50), round(r.uniform(-10, 10), 2)]) for _ in range(npts)]
         elif ctype == "date":
             base = r.choice([_dt.date(1900, 2, 27), _dt.date(1900, 3, 1), _dt.date(2016, 12, 27),
-                             _dt.date(1904, 1, 2), _dt.date(1999, 12, 30)])
+                             _dt.date(1904, 1, 2), _dt.date(1999, 12, 30), _dt.date(2017, 6, 28), _dt.date(2021, 3, 27), _dt.date(2021, 10, 30)])
             cats = [{"date": (base + _dt.timedelta(days=i * r.choice([1, 1, 7, 31]))).isoformat()}
                     for i in range(npts)]
+            k = r.random()
+            if k < 0.35:
+                # datetime.datetime labels (documented): midnight mostly, sometimes with a time of day
+                tod = r.choice(["00:00:00", "00:00:00", "00:00:00", "23:30:00", "06:15:00", "mixed"])
+                for c_ in cats:
+                    c_["time"] = tod if tod != "mixed" else r.choice(["00:00:00", "00:30:00", "12:00:00", "23:59:59"])
         else:
             # multi-level: tree with ragged branching, depth 2..4
             depth = r.randint(2, 4)
@@ -213,7 +219,13 @@ def build_chart_data(rec: dict):
             vals = []
             for c in cats:
                 if isinstance(c, dict):
-                    vals.append(_dt.date.fromisoformat(c["date"]))
+                    d_ = _dt.date.fromisoformat(c["date"])
+                    if c.get("time"):
+                        hh, mm, ss = map(int, c["time"].split(":"))
+                        from . import seams
+                        vals.append(seams._real_datetime(d_.year, d_.month, d_.day, hh, mm, ss))
+                    else:
+                        vals.append(d_)
                 else:
                     vals.append(c)
             cd.categories = vals
